@@ -179,7 +179,12 @@ def get_facts(config="workspace", repo=None, log=sys.stderr, slot=None):
         }
         with open(os.path.join(tmp, "meta.json"), "w") as f:
             json.dump(meta, f)
-        os.rename(tmp, final)
+        try:
+            os.rename(tmp, final)
+        except OSError:
+            # another process (different slot, same tree content) published the same fact set first
+            shutil.rmtree(tmp, ignore_errors=True)
+            _verify(final, expected)
         # keep the cache small: drop fact sets other than the 6 most recent
         sets = sorted((d for d in glob.glob(os.path.join(facts_root, "*")) if os.path.isdir(d)), key=os.path.getmtime)
         for d in sets[:-6]:
